@@ -11,6 +11,8 @@ pub fn scenario(tier: &str) -> (Market, Bounds) {
         spec(Who::B, Who::M2, 3, 2, 10),
         PSpec { sig: Sig::ByStranger, ..spec(Who::A, Who::M1, 4, 2, 10) },
         spec(Who::B, Who::M1, 5, 5, 0),
+        PSpec { client_by_key: true, ..spec(Who::A, Who::M1, 1, 2, 10) },
+        PSpec { client_by_key: true, ..spec(Who::A, Who::M1, 2, 5, 10) },
     ];
     let mut batches = vec![
         (Who::W1, vec![0]),
@@ -21,6 +23,8 @@ pub fn scenario(tier: &str) -> (Market, Bounds) {
         (Who::W1, vec![0, 2]),
         (Who::Z, vec![0]),
         (Who::O2, vec![2]),
+        (Who::W1, vec![5, 6]),
+        (Who::W1, vec![0, 6]),
     ];
     if th {
         batches.push((Who::W1, vec![4]));
